@@ -24,7 +24,7 @@ CLAIMS = {
         design='4/C03'),
     'C04': dict(
         technique='cadence rules on the gated value graph: count+1 at every state constructor, guard normal form count % interval == 0 with call-site tracing of the step argument, identity-arm (pass-through) check of every guarded refresh, warm-up comparator/polarity, interval lower bound',
-        text='Static: all six update paths rebuild state with count = incoming count + 1; every refresh guard (DS statistics, DS roots in 3 modes x valuations, Tearfree Shampoo x2, Sketchy) normalises to incoming_count % configured_interval == 0 and the count reaching the helpers is state.count unmodified; the not-taken arm returns the incoming slots themselves (statistics, blocks, sketches, metrics; ekfac restore of 5 sketch slots); roots are computed from the statistics of the same step (previous refresh in sharded mode); warm-up switch is count >= start with the preconditioned value on the true side; scheduled interval clamped >= 1. Necessary conditions of C04. Also: no root computation is reachable off the guard; the dispatcher runs the every-step function exactly when the interval is 1; the early return of the incoming states is taken exactly when there are no statistics; the three refresh functions agree on when the interval is scheduled.',
+        text='Static: all six update paths rebuild state with count = incoming count + 1; every refresh guard (DS statistics, DS roots in 3 modes x valuations, Tearfree Shampoo x2, Sketchy) normalises to incoming_count % configured_interval == 0 and the count reaching the helpers is state.count unmodified; the not-taken arm returns the incoming slots themselves (statistics, blocks, sketches, metrics; ekfac restore of 5 sketch slots); roots are computed from the statistics of the same step (previous refresh in sharded mode); warm-up switch is count >= start with the preconditioned value on the true side; scheduled interval clamped >= 1. Necessary conditions of C04. Also: no root computation is reachable off the guard; the dispatcher runs the every-step function exactly when the interval is 1; the early return of the incoming states is taken exactly when there are no statistics; the three refresh functions agree on when the interval is scheduled; the sharded refresh roots this step\'s statistics with the stored exponents and the statistics\' own sizes.',
         note='Trusted: lax.cond/efficient_cond evaluate one arm and return it bit-for-bit; tree.map is leaf-wise. Undecided: traced non-integer schedule values; numerical agreement of roots with statistics.',
         design='4/C04'),
     'C05': dict(
@@ -39,7 +39,7 @@ CLAIMS = {
         design='4/C06'),
     'C07': dict(
         technique='definite assignment; KIND abstract interpretation (pytree skeletons) with the initial state fed through the inlined update path per configuration valuation; cond-arm agreement; sibling cross-check of the sharded init/shape/pspec triple; assertion folding vs constructor validation; lints',
-        text='Static: package-wide definite assignment (251 functions); the pytree skeleton of the initial state of a preconditioned and a skipped parameter is pushed through _compute_stats -> _compute_preconditioners (pmap and pmap-quantized, root routines inlined) -> _transform_grad for every consistent valuation of 11 layout atoms (covering set quick, all ~900 thorough) and must come back unchanged, with both arms of every traced conditional on the way building the same tree; same for SM3 and Tearfree Shampoo/Sketchy; the sharded init / shape-dtype / partition-spec functions build one record, count statistics under the same guard, pad by (-N) mod D, take the maximal size over the same parameters and declare the dtypes init constructs; dispatch siblings agree; no axis-less squeeze; configuration-only assertions cannot fail for an accepted configuration; no dead store of a computed value. Necessary conditions of C07. Also: the sharded update returns the records it received field by field and both record conversions are complete; roots are cut back to their own announced shape; the stale carry of the refresh cond has the taken arm\'s list lengths; all per-axis Sketchy buffers derive from one sketch rank.',
+        text='Static: package-wide definite assignment (251 functions); the pytree skeleton of the initial state of a preconditioned and a skipped parameter is pushed through _compute_stats -> _compute_preconditioners (pmap and pmap-quantized, root routines inlined) -> _transform_grad for every consistent valuation of 11 layout atoms (covering set quick, all ~900 thorough) and must come back unchanged, with both arms of every traced conditional on the way building the same tree; same for SM3 and Tearfree Shampoo/Sketchy; the sharded init / shape-dtype / partition-spec functions build one record, count statistics under the same guard, pad by (-N) mod D, take the maximal size over the same parameters and declare the dtypes init constructs; dispatch siblings agree; no axis-less squeeze; configuration-only assertions cannot fail for an accepted configuration; no dead store of a computed value. Necessary conditions of C07. Also: the sharded update returns the records it received field by field and both record conversions are complete; roots are cut back to their own announced shape; the stale carry of the refresh cond has the taken arm\'s list lengths; all per-axis Sketchy buffers derive from one sketch rank. Also: no float-valued numpy function sits on the value graph of the per-parameter transform (a strongly typed float64 scalar would change the dtype of update and state under x64); the grafting accumulator is allocated at init exactly for the graft types whose transform accumulates into it.',
         note='Trusted: arrays are leaves (shapes/dtypes not tracked except in the sharded declaration); tree.map/all_gather preserve structure; _pjit_compute_preconditioners unreachable. Undecided: update dtype under mixed precision, shape-dependent assertions, arbitrary trace-time errors.',
         design='4/C07'),
     'C08': dict(
@@ -49,7 +49,7 @@ CLAIMS = {
         design='4/C08'),
     'C09': dict(
         technique='DEG abstract interpretation (homogeneity degrees in gradient scale and decay, linear constraint solving) on the value graph of the three FD updates; algebraic identities (l\' + t\')^(-1/p), cut-off index agreement, unfolding normal form',
-        text='Static, for Distributed Shampoo _fd_update_root, Tearfree Sketchy _update_axis (ekfac / relative-epsilon valuations) and OCO _fd_update_fn (4 algorithms): the update equations are homogeneous in the gradient scale with eigenvalues/escaped mass covariance-level and sketch roots root-level, each new slot has its old degree, and the pure-history part of every stored quantity is discounted by beta^(degree/2) (zero-gradient step scales V diag(l) V\' and t by the same beta); retained values/vectors are the first k of one SVD with cut-off s[k] (OCO: last row, rho = s[-1]); t\' = beta t + cutoff^2; stored inverse roots are (l\' + t\' [+eps])^(-1/p) of the same step with clamps at 0; the factored matrix is [sqrt(beta) V sqrt(l), unfolding of the gradient along the axis]. Necessary conditions of C09. Also (guard discipline, by point evaluation): at the reference point of a healthy retained direction every clamp, mask and safe division on the stored fields is the identity; an off-unit column is dropped; at the all-zero state every inverse power is guarded to 0.',
+        text='Static, for Distributed Shampoo _fd_update_root, Tearfree Sketchy _update_axis (ekfac / relative-epsilon valuations) and OCO _fd_update_fn (4 algorithms): the update equations are homogeneous in the gradient scale with eigenvalues/escaped mass covariance-level and sketch roots root-level, each new slot has its old degree, and the pure-history part of every stored quantity is discounted by beta^(degree/2) (zero-gradient step scales V diag(l) V\' and t by the same beta); retained values/vectors are the first k of one SVD with cut-off s[k] (OCO: last row, rho = s[-1]); t\' = beta t + cutoff^2; stored inverse roots are (l\' + t\' [+eps])^(-1/p) of the same step with clamps at 0; the factored matrix is [sqrt(beta) V sqrt(l), unfolding of the gradient along the axis]. Necessary conditions of C09. Also (guard discipline, by point evaluation): at the reference point of a healthy retained direction every clamp, mask and safe division on the stored fields is the identity; an off-unit column is dropped; at the all-zero state every inverse power is guarded to 0. Also: with average_grad the gradient accumulator of Distributed Shampoo restarts exactly on the first step of each statistics window (the restart test evaluated on a grid of (interval, step)) and the sketch is fed accumulator / interval; the ridge inside the stored Sketchy powers is epsilon, relative to max(l^2 + t) when so configured.',
         note='Trusted: homogeneity of singular values/vectors; masks and epsilons degree 0. Undecided: the PSD bracket, orthonormality, exact low-rank tracking (numerical linear algebra); linear_approx_tail heuristic.',
         design='4/C09'),
     'C10': dict(
@@ -59,7 +59,7 @@ CLAIMS = {
         design='4/C10'),
     'C11': dict(
         technique='value-graph normal forms of quantize / to_float / from_float_value per (dtype, extract_diagonal) valuation; constant, rounding-primitive, operand-order (overflow) and axis rules; writer/reader dispatch agreement; re-wrap call-site lint',
-        text='Static: bucket counts 127 / 32767; the integer cast is applied to jnp.round of (x [- diag]) / where(b > 0, b, 1) with the input itself as numerator (no pre-scaling that could overflow) and the axis-0 bucket max|x|/count re-expanded on axis 0; dequantisation is payload * bucket (+ diag of the stored diagonal, exactly); writer and reader handle the same dtype set and other dtypes are rejected; from_float_value records payload/diagonal/bucket/dtype/flag/list(shape) and the empty case; Distributed Shampoo re-wraps raw leaves with the flag used to quantise. Necessary conditions of C11. Also: the quantized root wrapper returns the three parts of one re-quantized value and dequantizes the statistic from its own parts; a kept quantized root keeps every part under one predicate (gate rules).',
+        text='Static: bucket counts 127 / 32767; the integer cast is applied to jnp.round of (x [- diag]) / where(b > 0, b, 1) with the input itself as numerator (no pre-scaling that could overflow) and the axis-0 bucket max|x|/count re-expanded on axis 0; dequantisation is payload * bucket (+ diag of the stored diagonal, exactly); writer and reader handle the same dtype set and other dtypes are rejected; from_float_value records payload/diagonal/bucket/dtype/flag/list(shape) and the empty case; Distributed Shampoo re-wraps raw leaves with the flag used to quantise. Necessary conditions of C11. Also: the quantized root wrapper returns the three parts of one re-quantized value and dequantizes the statistic from its own parts; a kept quantized root keeps every part under one predicate (gate rules). Also: from_float_value hands its input unchanged to quantize whatever its rank; the dequantize / re-quantize callbacks of the statistics update are the plain conversions (no ridge, symmetrisation or rescaling before quantizing).',
         note='Trusted: jnp.round = round-to-nearest-even; integral floats cast exactly. Undecided: the half-bucket bound / idempotence over all float32 magnitudes (subnormal buckets flush to zero on this backend).',
         design='4/C11'),
     'C12': dict(
@@ -69,12 +69,12 @@ CLAIMS = {
         design='4/C12'),
     'C13': dict(
         technique='LEN abstract domain (symbolic list lengths) on the value graph, pad-count normal form at every site, index-map rule for batch/unbatch, collective-axis and replica-index agreement, squeeze lint',
-        text='Static: the pad count is (-N) mod D at all six sites with the right D and the N == 0 special case agrees across sharded init/declaration/update; every list handed to batch (statistics, exponents, paddings, quantized parts, previous preconditioners incl. the _maybe path) has symbolic length N + to_pad with pads appended last and pad entries (identity, exponent 1, padding start 0); batch chunks with slice width == stride == n/D and unbatch re-emits row-major, results are zipped against the N-long per-statistic lists (dropping exactly the pads); axis_index/all_gather/psum name one axis, every batched operand is indexed by the same replica (0 on one device), roots are all_gather-ed then unbatched; no axis-less squeeze. Necessary conditions of C13. Also: the flat results are dealt back by a running index from 0 advancing by each state\'s count; each root is cut back to its own announced shape; zipped result lists are read from position 0; the sharded global arrays list real rows first, dummy rows last, and get D dummy rows exactly when nothing is preconditioned; the caller hands the stored statistics / preconditioners down unchanged.',
+        text='Static: the pad count is (-N) mod D at all six sites with the right D and the N == 0 special case agrees across sharded init/declaration/update; every list handed to batch (statistics, exponents, paddings, quantized parts, previous preconditioners incl. the _maybe path) has symbolic length N + to_pad with pads appended last and pad entries (identity, exponent 1, padding start 0); batch chunks with slice width == stride == n/D and unbatch re-emits row-major, results are zipped against the N-long per-statistic lists (dropping exactly the pads); axis_index/all_gather/psum name one axis, every batched operand is indexed by the same replica (0 on one device), roots are all_gather-ed then unbatched; no axis-less squeeze. Necessary conditions of C13. Also: the flat results are dealt back by a running index from 0 advancing by each state\'s count; each root is cut back to its own announced shape; zipped result lists are read from position 0; the sharded global arrays list real rows first, dummy rows last, and get D dummy rows exactly when nothing is preconditioned; the caller hands the stored statistics / preconditioners down unchanged; both per-device vmap helpers map every operand of the root routine along axis 0, whole, and return the batched result for every batch; every identity pad is created with an explicit dtype.',
         note='Trusted: the caller builds the per-statistic lists in one loop (checked syntactically); numpy semantics of stack/split. Undecided: bitwise batch-size invariance of linear algebra; real-mesh execution.',
         design='4/C13'),
     'C14': dict(
         technique='effect analysis (purity) over all functions of the optimizer modules with a positive fixture; who-may-mutate table for list parameters; state-container class rule; KIND static-field constancy and layout fixed point (shared with C07); counter rules',
-        text='Static: none of the 207 functions of the optimizer modules declares global/nonlocal, stores attributes outside constructors, stores into or mutates a captured/module-level object or a parameter (exception: `exponents`, created afresh by the only caller), memoises, draws from the global RNG, builds an unseeded generator or reads the clock/environment - so init/update are pure functions of (gradients, state, params, configuration); all state containers are NamedTuples / flax struct dataclasses without mutable class-level defaults; static (non-pytree) fields and the whole layout are identical at init and after any update path; counters start as int32 zeros and advance by one. Necessary conditions of C14.',
+        text='Static: none of the 207 functions of the optimizer modules declares global/nonlocal, stores attributes outside constructors, stores into or mutates a captured/module-level object or a parameter (exception: `exponents`, created afresh by the only caller), memoises, draws from the global RNG, builds an unseeded generator or reads the clock/environment - so init/update are pure functions of (gradients, state, params, configuration); all state containers are NamedTuples / flax struct dataclasses without mutable class-level defaults; static (non-pytree) fields and the whole layout are identical at init and after any update path; counters start as int32 zeros and advance by one; no augmented assignment acts on a value still aliased from a state record, directly or through a callee that updates its parameter in place (numpy leaves of a restored state would be modified in place - F22 repaired); record classes nested in state fields are found through the field annotations. Necessary conditions of C14.',
         note='Trusted: syntactic effect recognition with one-level aliasing; jax/optax primitives are pure. Undecided: bit-identity of the msgpack round trip itself.',
         design='4/C14'),
     'C15': dict(
@@ -84,12 +84,12 @@ CLAIMS = {
         design='4/C15'),
     'C16': dict(
         technique='exhaustiveness of the algorithm table, constant propagation through the factor functions, value-graph normal forms of the FD / OGD / AdaGrad updates per algorithm, plus the DEG rules of C09 for the OCO sketch',
-        text='Static: Algorithm members = OGD, ADA + factor-table keys, each bound to its own init/update, factor tuples as documented (S-AdaGrad: sketch 1, alpha factor 1, lr, rsqrt); for all four FD algorithms t\' = t + 1, sketch input (P e).at[-1].set(g * factor), rho = s[-1], e\' = sqrt((s-rho)(s+rho)), P\' = vt, alpha\' = alpha + factor * rho^2 with alpha_0 = delta, and the iterate formulas with the same safe inverse (cut-off exactly 0) inside and outside the sketch; OGD and diagonal AdaGrad equal their closed forms with h_0 = delta and the zero guard. Necessary conditions of C16. Also: init() builds a fresh state on every call (the update functions mutate the state in place).',
+        text='Static: Algorithm members = OGD, ADA + factor-table keys, each bound to its own init/update, factor tuples as documented (S-AdaGrad: sketch 1, alpha factor 1, lr, rsqrt); for all four FD algorithms t\' = t + 1, sketch input (P e).at[-1].set(g * factor), rho = s[-1], e\' = sqrt((s-rho)(s+rho)), P\' = vt, alpha\' = alpha + factor * rho^2 with alpha_0 = delta, and the iterate formulas with the same safe inverse (cut-off exactly 0) inside and outside the sketch; OGD and diagonal AdaGrad equal their closed forms with h_0 = delta and the zero guard. Necessary conditions of C16. Also: init() builds a fresh state on every call (the update functions mutate the state in place); the dataset driver (oco/train.py) feeds the compiled scan the update function / initial state / loss made from its own arguments, one update per row in row order, and every record it passes as a static jit argument is compared in full (no compare=False field, no hand-written __eq__/__hash__).',
         note='Trusted: svd returns singular values in descending order. Undecided: FD bracket, equality with full-matrix AdaGrad for low-rank histories (numerical).',
         design='4/C16'),
     'C17': dict(
         technique='abstract interpretation of the python bookkeeping in create_redist_dict / create_groups (pvstatic.imp: symbolic values over a product of zone (difference-bound, Floyd-Warshall closure) and sign domains, one symbolic iteration per loop from a havocked head plus the invariant under check, path splitting on the code\'s own tests; no solver); roles (ranks dict, group, budget, proportional / top-up loops, pool variables) found by data flow, not by name',
-        text='Static: at the write-out of every group the facts sum(ranks) <= len(group) * sketchy_rank and "every rank <= dim" are established by assertions on every path and only the top-up loop touches the ranks afterwards; the top-up loop has a pool variable with 1 <= pool <= budget - sum(ranks) at entry and in every path of an iteration ranks do not decrease, d(ranks) + d(pool) <= 0, ranks stay <= dim, pool stays >= 0 and the loop continues only with pool >= 1; the proportional loop starts from a pool <= budget - len(group) (one rank per layer set aside), stores exactly one integer rank >= 1 per layer keyed by that layer, charges at least rank - 1, divides only by denominators the path knows to be positive (F19 repaired) and lowers the remaining score by at most the layer\'s own score, every share is floor(score * pool / remaining) so the pool stays >= 0, every stored rank is <= dim on its own path; the assertions of the iteration are implied by what precedes them (no valid input is turned into an AssertionError); create_groups keys every layer by its axis dimension and places it in exactly that group. Necessary conditions of C17.',
+        text='Static: at the write-out of every group the facts sum(ranks) <= len(group) * sketchy_rank and "every rank <= dim" are established by assertions on every path and only the top-up loop touches the ranks afterwards; the top-up loop (followed through one level of nesting) has a pool variable with 1 <= pool <= budget - sum(ranks) at entry and in every path of an iteration ranks do not decrease, d(ranks) + d(pool) <= 0, ranks stay <= dim, pool stays >= 0 and the loop continues only with pool >= 1; the proportional loop starts from a pool <= budget - len(group) (one rank per layer set aside), stores exactly one integer rank >= 1 per layer keyed by that layer, charges at least rank - 1, divides only by denominators the path knows to be positive (F19 repaired) and lowers the remaining score by at most the layer\'s own score, every share is floor(score * pool / remaining) so the pool stays >= 0, every stored rank is <= dim on its own path; the assertions of the iteration are implied by what precedes them (no valid input is turned into an AssertionError); create_groups keys every layer by its axis dimension and places it in exactly that group; the result tree holds one fresh rank list per parameter (no container shared between keys). Necessary conditions of C17.',
         note='Trusted: non-negative finite scores; assertions executed; nested helpers pure. Undecided: the proportional phase tripping its own assertions for float scores (no allocation returned).',
         design='4/C17'),
 }
